@@ -37,8 +37,10 @@ man = {
          "kind_free_text": "TLC model checking of the state machine on bounded instances (MC_Lattice, MC_Grammar, MC_Outcome, MC_Seq, MC_Threads) with design-level invariants and emission of every transition"},
         {"name": "tlaps-aux", "path": "spec/ThreadsProof.tla", "serves_properties": ["C14"],
          "kind_free_text": "auxiliary TLAPS proof (55 obligations) of ModelReadOnly and ResultIsSequential of Threads.tla for any number of threads and reads"},
-        {"name": "apalache-aux", "path": "spec/OutcomeInt.tla", "serves_properties": ["C03"],
-         "kind_free_text": "auxiliary symbolic check (Apalache) of the outcome pipeline over unbounded integer rank values"},
+        {"name": "apalache-aux", "path": "spec/OutcomeInt.tla", "serves_properties": ["C02", "C03", "C04", "C07"],
+         "kind_free_text": "auxiliary symbolic check (Apalache) of the outcome pipeline over unbounded integer rank values: pipeline = rule and order-only (C03), sort + un-sort restores every team and the ladder is symmetric (C02, C07), re-listing equivariance under the tie proviso (C04)"},
+        {"name": "tlc-trace-stages", "path": "spec/Stages.tla", "serves_properties": [],
+         "kind_free_text": "beyond the listed properties (./check stages, report in extra/stages.json): the helpers' observed arguments and results inside rate() against the operators of the specification that model those steps"},
     ],
     "checks": [],
     "not_applicable": [],
